@@ -1156,7 +1156,10 @@ fn run_source(w: &World, src: &str, verbose: bool, out: &mut Out, hist: &mut His
 // ------------------------------------------------------------------------------------------
 // positions that demand a constant
 // ------------------------------------------------------------------------------------------
-pub const POSITIONS: &[&str] = &["array", "enum", "enumnext", "case", "template", "constint", "constuint", "numthreads", "assert"];
+pub const POSITIONS: &[&str] = &[
+    "array", "enum", "enumnext", "case", "template", "constint", "constuint", "localconst", "numthreads", "unroll",
+    "bindgroup", "pipelineprop", "assert",
+];
 
 fn err_kind(e: &str) -> String {
     // "reject:type:<text>" -> a short stable label
@@ -1193,6 +1196,16 @@ fn observe_position(pos: &str, src: &str) -> Result<String, String> {
         ),
         "constint" => format!("{}static const int pc = {};\n", PRELUDE, src),
         "constuint" => format!("{}static const uint pc = {};\n", PRELUDE, src),
+        "localconst" => format!("{}void t() {{ const int pc = {}; }}\n", PRELUDE, src),
+        "unroll" => format!(
+            "{}void t() {{ [unroll({})] for (int i = 0; i < 2; ++i) {{}} }}\n",
+            PRELUDE, src
+        ),
+        "bindgroup" => format!("{}[[rssl::bind_group({})]] Texture2D<float4> ptx;\n", PRELUDE, src),
+        "pipelineprop" => format!(
+            "{}[numthreads(1, 1, 1)] void main() {{}}\nPipeline PP {{ ComputeShader = main; DefaultBindGroup = {}; }}\n",
+            PRELUDE, src
+        ),
         "numthreads" => format!(
             "{}[numthreads({}, 1, 1)] void main() {{}}\nPipeline PP {{ ComputeShader = main; }}\n",
             PRELUDE, src
@@ -1266,6 +1279,48 @@ fn observe_position(pos: &str, src: &str) -> Result<String, String> {
                 None => "shape:no global".to_string(),
             }
         }
+        "localconst" => {
+            let mut r = "shape:no local".to_string();
+            for id in m.variable_registry.iter() {
+                let v = m.variable_registry.get_local_variable(id);
+                if v.name.node == "pc" {
+                    r = match &v.constexpr_value {
+                        Some(c) => format!("val:{}", show_k(&k_of_const(c))),
+                        None => "notconst".to_string(),
+                    };
+                }
+            }
+            r
+        }
+        "unroll" => {
+            let mut r = "shape:no unroll attribute".to_string();
+            for id in m.function_registry.iter() {
+                if m.function_registry.get_function_name(id) != "t" {
+                    continue;
+                }
+                if let Some(imp) = m.function_registry.get_function_implementation(id) {
+                    for st in &imp.scope_block.0 {
+                        for a in &st.attributes {
+                            if let ir::StatementAttribute::Unroll(Some(n)) = a {
+                                r = format!("count:{}", n);
+                            }
+                        }
+                    }
+                }
+            }
+            r
+        }
+        "bindgroup" => match m.global_registry.iter().find(|g| g.name.node == "ptx") {
+            Some(g) => match g.lang_slot.set {
+                Some(n) => format!("group:{}", n),
+                None => "shape:no group".to_string(),
+            },
+            None => "shape:no global".to_string(),
+        },
+        "pipelineprop" => match m.pipelines.first() {
+            Some(p) => format!("group:{}", p.default_bind_group_index),
+            None => "shape:no pipeline".to_string(),
+        },
         "numthreads" => match m.pipelines.first().and_then(|p| p.stages.first()) {
             Some(st) => match st.thread_group_size {
                 Some((x, _, _)) => format!("threads:{}", x),
@@ -1305,16 +1360,21 @@ fn judge_position(pos: &str, want: &Want, obs: &str) -> String {
     };
     let fail = |expected: String| format!("FAIL:{} recorded {} for an expression whose value is {} (expected {})", pos, obs, show_k(&val), expected);
     match pos {
-        "array" | "numthreads" => {
-            let prefix = if pos == "array" { "len:" } else { "threads:" };
-            if pos == "numthreads" && matches!(val, K::Enum(_, _)) {
+        "array" | "numthreads" | "unroll" | "bindgroup" | "pipelineprop" => {
+            let prefix = match pos {
+                "array" => "len:",
+                "numthreads" => "threads:",
+                "unroll" => "count:",
+                _ => "group:",
+            };
+            if pos != "array" && matches!(val, K::Enum(_, _)) {
                 // whether an enum-typed thread count is admissible is a typing question
                 return "ok".into();
             }
             match iv {
                 None => "ok".into(), // non-integer sizes: typing question, not a value question
                 Some(v) => {
-                    let max = if pos == "array" { u64::MAX as i128 } else { u32::MAX as i128 };
+                    let max = if pos == "array" || pos == "unroll" { u64::MAX as i128 } else { u32::MAX as i128 };
                     let min = if pos == "array" { 1 } else { 0 };
                     if v >= min && v <= max {
                         if rejected {
@@ -1335,7 +1395,18 @@ fn judge_position(pos: &str, want: &Want, obs: &str) -> String {
         "enum" | "enumnext" | "case" | "template" => match iv {
             None => "ok".into(),
             Some(v) => {
-                // the enumerator after `= v` has the value v + 1
+                // the enumerator after `= v` has the value v + 1; when v + 1 does not fit the type of the
+                // previous enumerator a rejection is as good as the widened value
+                let succ_overflows = pos == "enumnext"
+                    && match &val {
+                        K::I32(x) => *x == i32::MAX,
+                        K::U32(x) => *x == u32::MAX,
+                        K::Enum(_, inner) => matches!(**inner, K::I32(i32::MAX) | K::U32(u32::MAX)),
+                        _ => false,
+                    };
+                if succ_overflows && rejected {
+                    return "ok".into();
+                }
                 let v = if pos == "enumnext" { v + 1 } else { v };
                 if rejected {
                     // an enum value must fit int or uint, a uint template parameter takes 32-bit values
@@ -1351,8 +1422,8 @@ fn judge_position(pos: &str, want: &Want, obs: &str) -> String {
                 }
             }
         },
-        "constint" | "constuint" => {
-            let t = if pos == "constint" { T::Int } else { T::UInt };
+        "constint" | "constuint" | "localconst" => {
+            let t = if pos == "constuint" { T::UInt } else { T::Int };
             match cast_ref(&t, &val) {
                 Want::Val(k) => {
                     if rejected {
